@@ -331,35 +331,37 @@ def buffer_and_expression_shapes(tier):
         out.append(shape(f"buffer_level_extrema/{'concurrent' if conc else 'nonconcurrent'}", build, defs))
 
     # user expression, indicator target / bounds (symbolic values, incl. 0)
-    for which in ("target", "bounds_both", "bounds_lower", "bounds_upper"):
-        def build(P, which=which):
+    for which, copt in [(w, False) for w in ("target", "bounds_both", "bounds_lower", "bounds_upper")] + [("target", True), ("bounds_both", True)]:
+        def build(P, which=which, copt=copt):
             pb, hv = new_problem(P, False)
             tis = _tasks(P, ("fixed", "var"), (False, False))
             ind = ps.IndicatorFromMathExpression(name="expr", expression=tis[0].s + 2 * tis[1].e - 3)
+            okw = {"optional": True} if copt else {}
             if which == "target":
-                ps.IndicatorTarget(indicator=ind, value=P.int("ival", ph=7))
+                c = ps.IndicatorTarget(indicator=ind, value=P.int("ival", ph=7), **okw)
             else:
                 kw = {}
                 if which in ("bounds_both", "bounds_lower"):
                     kw["lower_bound"] = P.int("ilo", ph=1)
                 if which in ("bounds_both", "bounds_upper"):
                     kw["upper_bound"] = P.int("ihi", ph=90)
-                ps.IndicatorBounds(indicator=ind, **kw)
-            return Ctx(problem=pb, tis=tis, ind=ind, which=which)
+                c = ps.IndicatorBounds(indicator=ind, **kw, **okw)
+            return Ctx(problem=pb, tis=tis, ind=ind, which=which, cst=c, named={"applied": c._applied})
 
         def defs(ctx):
             v = ctx.ind._indicator_variable
             P = ctx.P
+            g = to_z3(ctx.cst._applied)  # an optional constraint binds when applied (that it may be left unapplied: C10)
             d = [("user_expression", True, v == ctx.tis[0].s + 2 * ctx.tis[1].e - 3)]
             if ctx.which == "target":
-                d.append(("target_holds", True, v == P.v("ival")))
+                d.append(("target_holds", g, v == P.v("ival")))
             if ctx.which in ("bounds_both", "bounds_lower"):
-                d.append(("lower_bound_holds", True, v >= P.v("ilo")))
+                d.append(("lower_bound_holds", g, v >= P.v("ilo")))
             if ctx.which in ("bounds_both", "bounds_upper"):
-                d.append(("upper_bound_holds", True, v <= P.v("ihi")))
+                d.append(("upper_bound_holds", g, v <= P.v("ihi")))
             return d
 
-        out.append(shape(f"indicator_constraint/{which}", build, defs))
+        out.append(shape(f"indicator_constraint/{which}{'/optional' if copt else ''}", build, defs))
     return out
 
 
